@@ -54,6 +54,7 @@ def run_hist(sync, history, seed=0):
             grp.register_callback(lambda f, s, t: got.append(type(f.body).__name__))
             peer = Peer()
             sent_notifies = []
+            cnt = {"n": 0}
 
             def notify_raw(value, serial, tag, bad=False):
                 cap = []
@@ -124,7 +125,9 @@ def run_hist(sync, history, seed=0):
                 elif kind == "notify":
                     off, bad = args
                     v = max(local + off, 0)
-                    deliver(notify_raw(v, bytes.fromhex("00fa12345678"), b"\xab\xcd", bad))
+                    # every third notify is from another xknx on the backbone: it carries the very serial number we use (all xknx do), its own tag
+                    cnt["n"] += 1
+                    deliver(notify_raw(v, XKNX_SERIAL_NUMBER if cnt["n"] % 3 == 0 else bytes.fromhex("00fa12345678"), b"\xab\xcd", bad))
                     ev.append({"ev": "rx_notify", "v": v, "macok": 0 if bad else 1, "sync": 0, "t": now(), "tv": grp.secure_timer.current_timer_value()})
                 elif kind == "wrapped":
                     off, bad = args
